@@ -527,11 +527,6 @@ func vContractCommitCapacity(txn *Txn, last commit.Chunk) {
 	vEnsures("ids-bounded", vForall(0, len(txn.owner.commits), func(k int) bool { return txn.owner.commits[k] <= vNextID }))
 }
 
-//@ contract target=column.(*Txn).reset use verify=no
-func vContractReset(txn *Txn) {
-	txn.reset()
-}
-
 //@ loop target=column.(*Txn).commit index=0 props=C15
 func vLoopCommitDirty(txn *Txn, rangeindex int) {
 	vInvariant(vNothingHeld() && vLogCount == 0 && -1 <= rangeindex && rangeindex < len(txn.updates))
@@ -548,7 +543,7 @@ func vLoopFindMarkers(txn *Txn, rangeindex int) {
 // inside the latch of its own block with the id stored for that block (checked inside vLogger.Append), at most one
 // per dirty block, and none when nothing was applied to the block.
 //
-//@ lemma props=C15,C06,C08 mode=paths
+//@ lemma props=C15,C06,C08 mode=paths real=column.(*Txn).commit
 func vLemmaCommitEmits(owner *Collection, updates []*commit.Buffer, dirty []uint64) {
 	vAssume(owner != nil && owner.slock != nil && vNothingHeld() && owner.record == nil)
 	vAssume(vForall(0, len(updates), func(i int) bool { return updates[i] != nil }))
@@ -574,4 +569,326 @@ func vLemmaCommitEmits(owner *Collection, updates []*commit.Buffer, dirty []uint
 		vAssert("nothing-applied-no-emission", vLogCount == 0)
 	}
 	vAssert("released", vNothingHeld())
+}
+
+// ---------------------------------------------------------------------------------------------
+// Atomicity of Query (C02): an error from the callback leads to exactly one rollback and no commit and is returned;
+// nil leads to exactly one commit and no rollback. (What rollback and commit do is under their own contracts.)
+
+//@ contract target=column.(*txnPool).acquire use verify=no
+func vContractAcquire(p *txnPool, owner *Collection) (txn *Txn) {
+	txn = p.acquire(owner)
+	vEnsures("fresh-transaction", txn != nil && txn.owner == owner && !txn.setup)
+	return
+}
+
+//@ contract target=column.(*txnPool).release use verify=no
+func vContractRelease(p *txnPool, txn *Txn) { p.release(txn) }
+
+//@ contract target=column.(*Txn).rollback use verify=no
+func vContractRollbackGhost(txn *Txn) {
+	txn.rollback()
+	vDidRollback++
+}
+
+//@ contract target=column.(*Txn).commit use verify=no
+func vContractCommitGhost(txn *Txn) {
+	txn.commit()
+	vDidCommit++
+}
+
+//@ lemma props=C02
+func vLemmaQuery(c *Collection, errIn error) {
+	vAssume(c != nil && c.txns != nil)
+	vDidCommit, vDidRollback = 0, 0
+	calls := 0
+	err := c.Query(func(txn *Txn) error {
+		vAssert("nothing-decided-before-callback", vDidCommit == 0 && vDidRollback == 0)
+		calls++
+		return errIn
+	})
+	vAssert("callback-once", calls == 1)
+	if errIn != nil {
+		vAssert("error-rolls-back", vDidRollback == 1 && vDidCommit == 0 && err == errIn)
+	} else {
+		vAssert("nil-commits", vDidCommit == 1 && vDidRollback == 0 && err == nil)
+	}
+}
+
+// rollback (C02, C15, C18): recounts the live rows under the collection mutex, drops the buffers (reset), emits
+// nothing, writes no commit id and holds nothing afterwards.
+
+//@ contract target=column.(*Txn).reset use verify=no
+func vContractResetGhost(txn *Txn) {
+	txn.reset()
+	vDidReset++
+}
+
+//@ lemma props=C02,C15,C18 real=column.(*Txn).rollback
+func vLemmaRollback(owner *Collection, updates []*commit.Buffer) {
+	vAssume(owner != nil && vNothingHeld())
+	lg := &vLogger{owner: owner}
+	txn := &Txn{owner: owner, updates: updates, logger: lg}
+	vCol = owner
+	vLogCount, vDidReset = 0, 0
+	ids := vNextID
+	txn.rollback()
+	vAssert("recount-under-mutex", owner.count == uint64(vLastCount))
+	vAssert("buffers-dropped", vDidReset == 1)
+	vAssert("no-emission", vLogCount == 0 && vNextID == ids)
+	vAssert("released", vNothingHeld())
+}
+
+// Insert offsets (C11): findFreeIndex returns an offset that is not occupied. Given: the count passed in is the
+// reserved row count (occupied bits + 1) - by the mutex invariant popcount(fill) < count - which, when the count
+// still fits the bitmap, implies that some bit is zero (pigeonhole; assumed, not derivable without a popcount theory).
+//
+//@ lemma props=C11 real=column.(*Collection).findFreeIndex
+func vLemmaFindFreeIndex(fill []uint64, count uint64) {
+	vAssume(len(fill) <= 1<<25 && count >= 1)
+	full := vForall(0, len(fill), func(i int) bool { return fill[i] == 0xffffffffffffffff })
+	vAssume(count > uint64(len(fill))<<6 || !full) // pigeonhole consequence of popcount(fill) < count <= 64*len(fill)
+	// by the same invariant, when the tail word of the count is beyond... nothing more is needed
+	c := &Collection{fill: fill}
+	idx := c.findFreeIndex(count)
+	vAssert("free", int(idx>>6) >= len(fill) || !vBit(fill, idx))
+	vAssert("within-one-past-the-end", int(idx>>6) <= len(fill))
+}
+
+// next (C11, C18): under the collection mutex the count is incremented and the returned offset - free before - is
+// marked; nothing is held afterwards.
+//
+//@ contract target=column.(*Collection).findFreeIndex use verify=no
+func vContractFindFreeIndexUse(c *Collection, count uint64) (idx uint32) {
+	vRequires(vColW) // called under the collection mutex
+	idx = c.findFreeIndex(count)
+	vEnsures("free", (int(idx>>6) >= len(c.fill) || !vBit(c.fill, idx)) && int(idx>>6) <= len(c.fill) && len(c.fill) <= 1<<25)
+	return
+}
+
+//@ lemma props=C11,C18
+func vLemmaNextOffset(c *Collection) {
+	vAssume(c != nil && vNothingHeld() && c.count < 1<<40)
+	vCol = c
+	old := append([]uint64(nil), c.fill...)
+	cnt := c.count
+	idx := c.next()
+	vAssert("was-free", int(idx>>6) >= len(old) || !vBit(old, idx))
+	vAssert("now-marked", int(idx>>6) < len(c.fill) && vBit(c.fill, idx))
+	vAssert("count-incremented", c.count == cnt+1)
+	vAssert("others-kept", vForall(0, len(old), func(w int) bool {
+		if uint32(w) == idx>>6 {
+			return c.fill[w]&^(1<<(idx&63)) == old[w]&^(1<<(idx&63))
+		}
+		return c.fill[w] == old[w]
+	}))
+	vAssert("released", vNothingHeld())
+}
+
+//@ lemma props=C11,C02,C18
+func vLemmaFreeOffset(c *Collection, idx uint32) {
+	vAssume(c != nil && vNothingHeld())
+	vCol = c
+	old := append([]uint64(nil), c.fill...)
+	c.free(idx)
+	vAssert("cleared", int(idx>>6) >= len(c.fill) || !vBit(c.fill, idx))
+	vAssert("recount-under-mutex", c.count == uint64(vLastCount))
+	vAssert("others-kept", len(c.fill) == len(old) && vForall(0, len(old), func(w int) bool {
+		if uint32(w) == idx>>6 {
+			return c.fill[w]&^(1<<(idx&63)) == old[w]&^(1<<(idx&63))
+		}
+		return c.fill[w] == old[w]
+	}))
+	vAssert("released", vNothingHeld())
+}
+
+// ---------------------------------------------------------------------------------------------
+// Sorted index (C16). The tree dependency keeps items apart only if the comparator does: the comparator built by
+// newSortIndex must order two items that differ in key or in offset one way or the other (never both, never itself).
+//
+//@ lemma props=C16
+func vLemmaSortLess(a, b sortIndexItem) {
+	newSortIndex("i", "c")
+	less := vTreeLess
+	vAssert("irreflexive", !less(a, a))
+	vAssert("asymmetric", !(less(a, b) && less(b, a)))
+	vAssert("total-on-distinct-items", (a.Key == b.Key && a.Value == b.Value) || less(a, b) || less(b, a))
+	vAssert("orders-by-key-first", a.Key == b.Key || less(a, b) == (a.Key < b.Key))
+}
+
+// One operation through a sorted index: a put removes the row's previous entry (if it had one) and inserts
+// (value, offset), remembering the value for the row; a delete removes the row's entry; other kinds do nothing.
+//
+//@ lemma props=C16 mode=paths
+func vLemmaApplySortIndex(chunk commit.Chunk, buf []byte, last int32, cur commit.Chunk, s int, sel uint8, idx uint32, v0 []byte, n uint16, hadKey string, had bool) {
+	vAssume(idx < 1<<31 && commit.ChunkAt(idx) == chunk && last >= 0 && 0 <= s && s <= len(buf) && sel <= 3 && vShortDelta(last, idx, cur, chunk))
+	vAssume(int(n) <= len(v0) && len(buf) < 1<<30 && commit.VSeparate(buf, v0) && vNothingHeld())
+	v := v0[:n]
+	col := newSortIndex("i", "c").Column.(*columnSortIndex)
+	if had {
+		col.backMap[idx] = hadKey
+	}
+	b := commit.VBuffer(buf, last, cur)
+	oldLen := len(buf)
+	switch sel {
+	case 0:
+		b.PutBytes(commit.Put, idx, v)
+	case 1:
+		b.PutOperation(commit.Delete, idx)
+	case 2:
+		b.PutOperation(commit.Insert, idx)
+	default:
+		b.PutBytes(commit.Skip, idx, v)
+	}
+	r := commit.VReaderAt(b, s, oldLen, last)
+	vTreeSets, vTreeDeletes = 0, 0
+	col.Apply(chunk, r)
+	vAssert("locks-released", vOtherW == 0)
+	switch sel {
+	case 0:
+		vAssert("put-removes-old-entry", vTreeDeletes == b2i(had) && (!had || (vTreeLastDel.Value == idx && vSame(vTreeLastDel.Key, hadKey))))
+		vAssert("put-inserts-new-entry", vTreeSets == 1 && vTreeLastSet.Value == idx && len(vTreeLastSet.Key) == len(v) &&
+			vForall(0, len(v), func(i int) bool { return vTreeLastSet.Key[i] == v[i] }))
+		k, ok := col.backMap[idx]
+		vAssert("put-remembers-value", ok && vSame(k, vTreeLastSet.Key))
+	case 1:
+		vAssert("delete-removes-entry", vTreeSets == 0 && vTreeDeletes == 1 && vTreeLastDel.Value == idx && (!had || vSame(vTreeLastDel.Key, hadKey)))
+	default:
+		vAssert("other-op-nothing", vTreeSets == 0 && vTreeDeletes == 0)
+	}
+}
+
+func b2i(b bool) int {
+	if b {
+		return 1
+	}
+	return 0
+}
+
+// ---------------------------------------------------------------------------------------------
+// Primary keys (C12). One operation through the key column: a put stores the key for the row, makes the key resolve
+// to the row's offset and - when the row was keyed differently before - makes the old key stop resolving; a delete
+// clears the cell and removes the row's key from the table; other kinds change nothing.
+//
+//@ lemma props=C12,C01 mode=paths
+func vLemmaApplyKey(chs chunks[string], chunk commit.Chunk, buf []byte, last int32, cur commit.Chunk, s int, sel uint8, idx uint32, v0 []byte, n uint16, other string) {
+	vAssume(int(chunk) < len(chs) && len(chs[chunk].fill) == chunkSize/64 && len(chs[chunk].data) == chunkSize)
+	vAssume(idx < 1<<31 && commit.ChunkAt(idx) == chunk && last >= 0 && 0 <= s && s <= len(buf) && sel <= 3 && vShortDelta(last, idx, cur, chunk))
+	vAssume(int(n) <= len(v0) && len(buf) < 1<<30 && commit.VSeparate(buf, v0) && vNothingHeld())
+	v := v0[:n]
+	col := makeKey().(*columnKey)
+	col.chunks = chs
+	fill, data := chs[chunk].fill, chs[chunk].data
+	o := idx - chunk.Min()
+	hadKey, had := data[o], vBit(fill, o)
+	// table invariant for this row: its current key resolves to it
+	if had {
+		col.seek[hadKey] = idx
+	}
+	otherAt, otherIn := col.seek[other]
+	oldFill := append([]uint64(nil), fill...)
+	b := commit.VBuffer(buf, last, cur)
+	oldLen := len(buf)
+	switch sel {
+	case 0:
+		b.PutBytes(commit.Put, idx, v)
+	case 1:
+		b.PutOperation(commit.Delete, idx)
+	case 2:
+		b.PutOperation(commit.Insert, idx)
+	default:
+		b.PutBytes(commit.Skip, idx, v)
+	}
+	r := commit.VReaderAt(b, s, oldLen, last)
+	col.Apply(chunk, r)
+	vAssert("locks-released", vOtherW == 0)
+	switch sel {
+	case 0:
+		vAssert("put-stores-key", vBit(fill, o) && len(data[o]) == len(v) && vForall(0, len(v), func(i int) bool { return data[o][i] == v[i] }))
+		at, ok := col.OffsetOf(data[o])
+		vAssert("put-key-resolves-to-row", ok && at == idx)
+		if had && hadKey != data[o] {
+			_, still := col.OffsetOf(hadKey)
+			vAssert("put-removes-previous-key", !still)
+		}
+	case 1:
+		vAssert("delete-clears-cell", !vBit(fill, o))
+		if had {
+			_, still := col.OffsetOf(hadKey)
+			vAssert("delete-removes-key", !still)
+		}
+	default:
+		vAssert("other-op-cell", vBit(fill, o) == vBit(oldFill, o) && vSame(data[o], hadKey))
+	}
+	// an unrelated key keeps its mapping
+	if other != hadKey && (sel != 0 || other != data[o]) {
+		at, in := col.OffsetOf(other)
+		vAssert("other-keys-kept", in == otherIn && (!in || at == otherAt))
+	}
+	vAssert("frame-fill", vFrameFill(fill, oldFill, o))
+}
+
+// Key operations of a transaction (C12): each consults the lookup table as of now; InsertKey fails iff the key
+// resolves, UpsertKey visits the resolved row or inserts, QueryKey and DeleteKey fail iff the key does not resolve,
+// and DeleteKey queues a row delete for exactly the resolved offset.
+//
+//@ contract target=column.(*Txn).insert use verify=no
+func vContractInsertGhost(txn *Txn, fn func(Row) error, expireAt int64) (idx uint32, err error) {
+	idx, err = txn.insert(fn, expireAt)
+	vDidInsert++
+	vLastInsertIdx = idx
+	return
+}
+
+//@ contract target=column.(*Txn).QueryAt use verify=no
+func vContractQueryAtGhost(txn *Txn, index uint32, f func(Row) error) (err error) {
+	err = txn.QueryAt(index, f)
+	vDidQueryAt++
+	vLastQueryAt = index
+	return
+}
+
+//@ contract target=column.(*Txn).bufferFor use verify=no
+func vContractBufferFor(txn *Txn, columnName string) (b *commit.Buffer) {
+	b = txn.bufferFor(columnName)
+	vEnsures("buffer", b != nil && vFresh(b))
+	return
+}
+
+var (
+	vDidInsert, vDidQueryAt      int
+	vLastInsertIdx, vLastQueryAt uint32
+)
+
+//@ lemma props=C12 real=column.(*Txn).InsertKey
+func vLemmaKeyOperations(owner *Collection, key string, at uint32, present bool, sel uint8) {
+	vAssume(owner != nil && owner.pk != nil && owner.pk.seek != nil && vNothingHeld() && sel <= 3)
+	if present {
+		owner.pk.seek[key] = at
+	} else {
+		delete(owner.pk.seek, key)
+	}
+	txn := &Txn{owner: owner}
+	vDidInsert, vDidQueryAt = 0, 0
+	fn := func(Row) error { return nil }
+	var err error
+	switch sel {
+	case 0:
+		err = txn.InsertKey(key, fn)
+		vAssert("insertkey-fails-iff-exists", (err != nil) == present || (!present && vDidInsert == 1))
+		vAssert("insertkey-existing-no-insert", !present || (err != nil && vDidInsert == 0))
+		vAssert("insertkey-new-inserts-once", present || vDidInsert == 1)
+	case 1:
+		err = txn.UpsertKey(key, fn)
+		vAssert("upsert-existing-visits-row", !present || (vDidQueryAt == 1 && vLastQueryAt == at && vDidInsert == 0))
+		vAssert("upsert-new-inserts-once", present || (vDidInsert == 1 && vDidQueryAt == 0))
+	case 2:
+		err = txn.QueryKey(key, fn)
+		vAssert("querykey-fails-iff-absent", present || (err != nil && vDidQueryAt == 0))
+		vAssert("querykey-visits-row", !present || (vDidQueryAt == 1 && vLastQueryAt == at))
+	default:
+		err = txn.DeleteKey(key)
+		vAssert("deletekey-fails-iff-absent", (err != nil) == !present)
+	}
+	vAssert("locks-released", vNothingHeld())
 }
